@@ -1,6 +1,7 @@
 package main
 
 import (
+	"fmt"
 	"math/rand"
 	"strings"
 
@@ -183,6 +184,70 @@ func init() {
 				cl = "rewritten"
 			}
 			return map[string]interface{}{"ok": v}, cl
+		}
+	}
+}
+
+// res.smpatch: what a strategic-merge patch does to the identity of its target (kind, name, namespace, previous-id
+// bookkeeping) under the four combinations of allowNameChange / allowKindChange — Resource.ApplySmPatch against
+// Kust.SmPatchId.apply.
+func init() {
+	components["res.smpatch"] = func(r *rand.Rand, tier string) (map[string]interface{}, func() (interface{}, string)) {
+		kinds := []string{"StatefulSet", "Deployment", "DaemonSet"}
+		k := pickS(r, kinds)
+		ns := pickS(r, []string{"", "", "default", "ns1"})
+		orig := pickS(r, []string{"web", "app"})
+		c := nrCand{w: wid{"apps", "v1", k, orig, ns}}
+		cur := orig
+		eff := ns
+		if eff == "" {
+			eff = "default"
+		}
+		for st := r.Intn(3); st > 0; st-- {
+			c.prev = append(c.prev, [3]string{k, cur, eff})
+			if r.Intn(2) == 0 {
+				cur = "p-" + cur
+				c.pre = append(c.pre, "p-")
+			} else {
+				cur += "-s"
+				c.suf = append(c.suf, "-s")
+			}
+		}
+		c.w.Name = cur
+		pk := pickS(r, kinds)
+		pn := pickS(r, []string{cur, "not-important", "other", orig})
+		pns := pickS(r, []string{"", ns, "elsewhere"})
+		allowName, allowKind := r.Intn(2) == 0, r.Intn(2) == 0
+		args := map[string]interface{}{"cs": csGraph(c.w), "res": c.wire(),
+			"patch": map[string]interface{}{"kind": pk, "name": pn, "ns": pns, "allowName": allowName, "allowKind": allowKind}}
+		return args, func() (interface{}, string) {
+			res, err := c.resource(map[string]interface{}{"spec": map[string]interface{}{"replicas": 1}})
+			if err != nil {
+				return map[string]interface{}{"err": "load"}, "err-load"
+			}
+			md := map[string]interface{}{"name": pn}
+			if pns != "" {
+				md["namespace"] = pns
+			}
+			patch, err := rf().FromMap(map[string]interface{}{"apiVersion": "apps/v1", "kind": pk, "metadata": md, "spec": map[string]interface{}{"replicas": 3}})
+			if err != nil {
+				return map[string]interface{}{"err": "load"}, "err-load"
+			}
+			if allowName {
+				patch.AllowNameChange()
+			}
+			if allowKind {
+				patch.AllowKindChange()
+			}
+			if err := res.ApplySmPatch(patch); err != nil {
+				return map[string]interface{}{"err": "other:" + err.Error()}, "err"
+			}
+			var prev []wid
+			for _, id := range res.PrevIds() {
+				prev = append(prev, widOf(id))
+			}
+			return map[string]interface{}{"ok": map[string]interface{}{"cur": widOf(res.CurId()).json(), "prev": widList(prev),
+				"prefixes": csvAnno(res, "internal.config.kubernetes.io/prefixes"), "suffixes": csvAnno(res, "internal.config.kubernetes.io/suffixes")}}, fmt.Sprintf("name=%v-kind=%v", allowName, allowKind)
 		}
 	}
 }
